@@ -21,7 +21,9 @@ MANIFEST = {
              'TypeBlocks._cols_to_slice REGENERATED from /repo and proved equal to their typed forms: C03_resolve_dtype_translated, '
              'C03_cols_to_slice_translated), values and transpose (C03_values_refines, C03_transpose_refines, C03_rows_of_transposes), roll with the '
              'split of the start block (C03_roll_refines), constructor coherence (C03_frame_coherent, C03_frame_rejects), agreement of the read routes '
-             '(C03_readers_agree, C03_to_pairs_refines); fillna/dropna under the guards that make their per-block decisions unobservable. '
+             '(C03_readers_agree, C03_to_pairs_refines); fillna/dropna under the guards that make their per-block decisions unobservable; '
+             'the get_block_match stack of clip / assign-by-blocks hands out exactly the next w source columns (C03_take_cols_spec, C03_take_many_spec) and '
+             'clip with Frame bounds equals the column-by-column clip for every (receiver layout, bound layouts) pair (C03_clip_refines, C03_clip_layout_independent). '
              'Correspondence through the public interface: EVERY block layout of the enumerated column-dtype sequences (<= 4 columns quick, <= 5 thorough), '
              '0-row and 0-column frames included; ~440-570 single-frame public operations per frame compared layout-vs-canonical-layout (labels, '
              'per-column values, per-column dtypes, error class); read routes values/iloc/loc/iter_element/iter_array/iter_series/to_pairs against the '
@@ -739,6 +741,19 @@ def pair_ops(kinds, n):
     ]
 
 
+CLIP_BOUNDS = {'clip(lower=L,upper=U)': (0, 1), 'clip(lower=L)': (0, None), 'clip(upper=U)': (None, 1), 'clip(lower=U,upper=L)': (1, 0)}
+
+
+def _stack_lit(arg, f):
+    """The block list Frame.clip hands to TypeBlocks.clip for a Frame bound, as a bound_stack literal (cells only)."""
+    blocks = arg.reindex(index=f.index, columns=f.columns)._blocks._blocks
+    return '(Some (' + lit.lst([lit.lst([col_cells(c) for c in block_cols(b)]) for b in blocks]) + ' : list (list (list val))))'
+
+
+def _bcols_lit(cols):
+    return '(Some (' + lit.lst([col_cells(c) for c in cols]) + ' : list (list val)))'
+
+
 def pair_cases(ctx, kinds, n):
     """Receiver layout x argument layout, every pair (thorough, m <= 4; quick: the small spaces and a sample), against canonical x canonical."""
     m = len(kinds)
@@ -756,6 +771,8 @@ def pair_cases(ctx, kinds, n):
         except Exception as e:  # noqa
             ref[name] = ('X', lit.err_class(e))
     pairs = [(a, b_) for a in lays for b_ in lays if not (a == canon and b_ == canon)]
+    clip_model = all(k in 'ihg' for k in kinds)       # numeric cells without missing values: what v_clip covers
+    C = cols_lit(columns_for(kinds, n))
     limit = None
     if ctx.tier == 'quick':
         limit = None if (kinds in ('iii', 'iiii') or len(lays) <= 5) else ctx.n(40, 40)
@@ -773,10 +790,28 @@ def pair_cases(ctx, kinds, n):
         f, a = frames[lf], args[lg]
         ctx.count('pair')
         for name, fn in ops:
+            res = None
             try:
-                o = _obs(fn(f, *a))
+                res = fn(f, *a)
+                o = _obs(res)
             except Exception as e:  # noqa
+                res = e
                 o = ('X', lit.err_class(e))
+            m_term = s_term = None
+            if name in CLIP_BOUNDS and clip_model:
+                # the block-level model of TypeBlocks.clip (get_block_match stack) on the observed receiver and bound blocks
+                lo_i, hi_i = CLIP_BOUNDS[name]
+                T = tb_lit(f._blocks._blocks)
+                stacks = [_stack_lit(a[i], f) if i is not None else '(@None (list (list (list val))))' for i in (lo_i, hi_i)]
+                bcols = [_bcols_lit(bound_columns(kinds, n, i + 1)) if i is not None else '(@None (list (list val)))' for i in (lo_i, hi_i)]
+                if isinstance(res, Exception):
+                    o_tb = o_cols = f'(Err {lit.s(lit.err_class(res))})'
+                else:
+                    o_tb = f'(Ok {tb_lit(res._blocks._blocks)})'
+                    o_cols = f'(Ok {cols_lit(frame_cols(res))})'
+                m_term = f'res_eqb tb_eqb (M_clip_v {T} {stacks[0]} {stacks[1]}) {o_tb}'
+                s_term = f'res_eqb columns_eqb (S_clip_v {C} {bcols[0]} {bcols[1]}) {o_cols}'
+                ctx.count('model:clip')
             r = ref[name]
             fam = op_family(name)
             fid = finding_for(name, kinds, n, lf) or finding_for(name, kinds, n, lg)
@@ -794,7 +829,7 @@ def pair_cases(ctx, kinds, n):
                        {'kinds': kinds, 'rows': n, 'receiver_layout': zoo.layout_str(lf), 'argument_layout': zoo.layout_str(lg), 'op': name,
                         'replay': f"from sfv.props.c03 import build, pair_args, pair_ops; f = build({kinds!r},{n},{lf!r}); L, U, G = pair_args({kinds!r},{n},{lg!r}); dict(pair_ops({kinds!r},{n}))[{name!r}](f, L, U, G)"}
                        if (py_fail or fid) else _PAIR_SHARED.setdefault((kinds, n), {'kinds': kinds, 'rows': n, 'op': 'every operation of pair_ops on every (receiver layout, argument layout) pair -- see the case key'}),
-                       py_fail=py_fail, tags=tags, nontrivial=(r[0] != 'X'),
+                       m=m_term, s=s_term, py_fail=py_fail, tags=tags, nontrivial=(r[0] != 'X'),
                        key=f'P|{kinds}|{n}|{zoo.layout_str(lf)}|{zoo.layout_str(lg)}|{name}')
 
 
